@@ -72,10 +72,15 @@ theorem TableSpec.wf_iff (t : TableSpec) : t.wf = true ↔ t.Wf := by
 
 /-- What the region numbers must satisfy for a table with `n` inputs and `m` outputs: an
 input expression cell and the allowed-values cell below it are different regions, and so
-are — for a single output — the output label and the output values cell. -/
+are — for a single output — the output label and the output values cell, and — for several
+outputs — the component name cells among themselves and from the cells below them. -/
 structure Ids.Ok (ids : Ids) (n m : Nat) : Prop where
   expr_inVal : ∀ j, j < n → ids.expr j ≠ ids.inVal j
   label_outVal : m = 1 → ids.label ≠ ids.outVal 0
+  /-- the first two component name cells are different regions -/
+  comp_distinct : 1 < m → ids.comp 0 ≠ ids.comp 1
+  /-- a component name cell and the allowed-values cell below it are different regions -/
+  comp_outVal : 1 < m → ∀ j, j < m → ids.comp j ≠ ids.outVal j
 
 /-! ## Lookups in a plane -/
 
@@ -348,33 +353,42 @@ theorem Rect.width_mk {l tp r b : Nat} (_ : l ≤ r) : Rect.width ⟨l, tp, r, b
 theorem Rect.height_mk {l tp r b : Nat} (_ : tp ≤ b) : Rect.height ⟨l, tp, r, b⟩ = ok (b - tp) := by
   simp [Rect.height]
 
-/-- The record `recognize_horizontal_table` yields for a drawn table. -/
-def horzOf (d : Decor) (t : TableSpec) : Horz :=
+/-- The record `recognize_horizontal_table` yields for a table, given the input values and the
+output header its header analysis found. -/
+def horzWith (t : TableSpec) (ivals : List Text) (oh : OutHeader) : Horz :=
   { inputClauseCount := t.inputs.length
     inputExpressions := t.exprs
-    inputValues := if t.hasValues then t.ivals d else []
+    inputValues := ivals
     inputEntries := t.rules.map (·.ins)
     outputClauseCount := t.outputs.length
-    outputLabel := t.label
-    outputComponents := if t.outputs.length = 1 then [] else t.names
-    outputValues := if t.hasValues then t.ovals d else []
+    outputLabel := oh.label
+    outputComponents := oh.components
+    outputValues := oh.values
     outputEntries := t.rules.map (·.outs)
     annotationClauseCount := t.annotations.length
     annotations := t.annotations
     annotationEntries := if t.annotations.length = 0 then [] else t.rules.map (·.anns) }
 
+/-- The record `recognize_horizontal_table` yields for a drawn table. -/
+def horzOf (d : Decor) (t : TableSpec) : Horz :=
+  horzWith t (if t.hasValues then t.ivals d else [])
+    ⟨t.label, if t.outputs.length = 1 then [] else t.names, if t.hasValues then t.ovals d else []⟩
+
+/-- The master lemma, for any header over the body of a table: whatever the analysis of the
+input clause (`valuesRows`, `valuesPresentIn`, `inputValuesRow`) and of the output clause
+(`outputHeader`) find in the header, `recognize_horizontal_table` returns it together with the
+expressions, entries and annotations of the table. -/
 theorem recognizeHorizontal_bodyOver {ids : Ids} {t : TableSpec} {hdr : List (List Cell)}
-    (d : Decor) (nm : Option Text) (hw : t.Wf) (hh : HeaderOk ids t hdr)
-    (hivp : inputValuesPresent (bodyOver ids t hdr nm) ⟨0, 0, t.inputs.length, hdr.length⟩ hdr.length
-      = ok t.hasValues)
-    (hvals : t.hasValues = true →
-      (bodyOver ids t hdr nm).rowTexts (hdr.length - 1) 0 t.inputs.length = ok (t.ivals d))
+    (nm : Option Text) (hw : t.Wf) (hh : HeaderOk ids t hdr)
+    {vr : Option (Nat × Nat)} {ivp : Bool} {ivals : List Text} {oh : OutHeader}
+    (hvr : valuesRows (bodyOver ids t hdr nm) ⟨0, 0, t.inputs.length, hdr.length⟩ hdr.length = ok vr)
+    (hivp : valuesPresentIn (bodyOver ids t hdr nm) ⟨0, 0, t.inputs.length, hdr.length⟩ vr = ok ivp)
+    (hivals : inputValuesRow (bodyOver ids t hdr nm) ⟨0, 0, t.inputs.length, hdr.length⟩ ivp vr
+      = ok ivals)
     (hout : outputHeader (bodyOver ids t hdr nm)
       ⟨t.inputs.length + 1, 0, t.inputs.length + 1 + t.outputs.length, hdr.length⟩
-      t.outputs.length hdr.length t.hasValues =
-        ok ⟨t.label, if t.outputs.length = 1 then [] else t.names,
-            if t.hasValues then t.ovals d else []⟩) :
-    recognizeHorizontal (bodyOver ids t hdr nm) = ok (horzOf d t) := by
+      t.outputs.length hdr.length = ok oh) :
+    recognizeHorizontal (bodyOver ids t hdr nm) = ok (horzWith t ivals oh) := by
   have hmain := bodyOver_main ids t hdr nm hh.plain
   have hheight := bodyOver_height ids t hdr nm
   have hwidth := bodyOver_width nm hh
@@ -384,12 +398,6 @@ theorem recognizeHorizontal_bodyOver {ids : Ids} {t : TableSpec} {hdr : List (Li
   have e2 : (bodyOver ids t hdr nm).horzInputEntriesRect =
       ok ⟨0, hdr.length + 1, t.inputs.length, hdr.length + 1 + t.rules.length⟩ := by
     simp [Plane.horzInputEntriesRect, hmain, hheight]
-  have hivals : inputValuesRow (bodyOver ids t hdr nm) ⟨0, 0, t.inputs.length, hdr.length⟩ t.hasValues
-      = ok (if t.hasValues then t.ivals d else []) := by
-    unfold inputValuesRow
-    cases hV : t.hasValues with
-    | false => simp
-    | true => simp [hvals hV]
   have hmne : t.outputs.length ≠ 0 := by omega
   by_cases hk : t.annotations.length = 0
   · have hhz := bodyOver_horz_none ids t hdr nm hh.plain hk
@@ -409,9 +417,9 @@ theorem recognizeHorizontal_bodyOver {ids : Ids} {t : TableSpec} {hdr : List (Li
     have hann : t.annotations = [] := List.eq_nil_of_length_eq_zero hk
     simp only [recognizeHorizontal, e1, e2, e3, e4, e5, e6, Outcome.ok_bind, Rect.width_mk (Nat.zero_le _),
       Rect.height_mk (Nat.zero_le _), Rect.width_mk (Nat.le_add_right _ _), Nat.sub_zero,
-      Nat.add_sub_cancel_left, hivp, row0_exprs nm hh, hivals, input_entries ids t hdr nm hw,
+      Nat.add_sub_cancel_left, hvr, hivp, row0_exprs nm hh, hivals, input_entries ids t hdr nm hw,
       outputClauseHeight, if_neg hmne, hout, output_entries ids t hdr nm hw]
-    simp [Rect.zero, Rect.width, Plane.rowTexts, Plane.rectTexts, Outcome.mapM, horzOf, hann]
+    simp [Rect.zero, Rect.width, Plane.rowTexts, Plane.rectTexts, Outcome.mapM, horzWith, hann]
   · have hhz := bodyOver_horz ids t hdr nm hh.plain hk
     have hwidth' : (bodyOver ids t hdr nm).width =
         t.inputs.length + 1 + t.outputs.length + 1 + t.annotations.length := by
@@ -434,9 +442,9 @@ theorem recognizeHorizontal_bodyOver {ids : Ids} {t : TableSpec} {hdr : List (Li
       simp [Plane.horzAnnotationEntriesRect, hhz, hwidth', hheight]
     simp only [recognizeHorizontal, e1, e2, e3, e4, e5, e6, Outcome.ok_bind, Rect.width_mk (Nat.zero_le _),
       Rect.height_mk (Nat.zero_le _), Rect.width_mk (Nat.le_add_right _ _), Nat.sub_zero,
-      Nat.add_sub_cancel_left, hivp, row0_exprs nm hh, hivals, input_entries ids t hdr nm hw,
+      Nat.add_sub_cancel_left, hvr, hivp, row0_exprs nm hh, hivals, input_entries ids t hdr nm hw,
       outputClauseHeight, if_neg hmne, hout, output_entries ids t hdr nm hw, row0_anns nm hh hk,
       annotation_entries ids t hdr nm hw hk]
-    simp [horzOf, hk]
+    simp [horzWith, hk]
 
 end Dmn.Recog
